@@ -163,7 +163,21 @@ type runner struct {
 	drains   int64
 }
 
-var procBaseline int
+var (
+	procBaseline int
+	baseOnce     sync.Once
+)
+
+// measureBaseline runs inside the first case of the process: by then the kit has started whatever
+// helper goroutine it runs for the whole process (the stuck-case detector), so that it is part of
+// the baseline the goroutine census compares with.
+func measureBaseline() {
+	baseOnce.Do(func() {
+		runtime.Gosched()
+		time.Sleep(10 * time.Millisecond)
+		procBaseline = runtime.NumGoroutine()
+	})
+}
 
 func quiesce(target int) bool {
 	for i := 0; i < 2000000; i++ {
@@ -187,6 +201,7 @@ var poisonKeys map[int]bool
 func newRunner(c *kit.Case, n int, seq []op) *runner {
 	r := &runner{n: n, model: map[int]*mtimer{}, c: c, seq: seq}
 	poison := poisonKeys // read-only from here on
+	measureBaseline()
 	if !quiesce(procBaseline) {
 		c.Inconclusive("goroutine count did not return to the process baseline")
 	}
